@@ -115,21 +115,25 @@ Definition validb (c : case) : bool := tab_ok 4 (p4tab c) && tab_ok 16 (p6tab c)
 Definition valid (c : case) : Prop := validb c = true.
 
 (* ---- sx codec ---- *)
+(* a Python str: #hex when all code points are below 256, otherwise the list of its code points
+   (so that non-Latin-1 text, e.g. non-ASCII decimal digits, reaches the model unchanged) *)
+Definition asStr (x : sx) : option str :=
+  match x with B s => Some s | L l => omap asN l | _ => None end.
 Definition dec_pent (x : sx) : option (str * pres) :=
   match x with
-  | L [B k; I 0%Z; B b] => Some (k, PBytes b)
-  | L [B k; I 1%Z; B _] => Some (k, POSError)
-  | L [B k; I 2%Z; B _] => Some (k, PValueError)
+  | L [k; I 0%Z; B b] => option_map (fun k => (k, PBytes b)) (asStr k)
+  | L [k; I 1%Z; B _] => option_map (fun k => (k, POSError)) (asStr k)
+  | L [k; I 2%Z; B _] => option_map (fun k => (k, PValueError)) (asStr k)
   | _ => None
   end.
 Definition dec_entry (x : sx) : option entry :=
-  match x with B s => Some (EStr s) | I _ => Some EBad | _ => None end.
+  match x with I _ => Some EBad | _ => option_map EStr (asStr x) end.
 Definition dec_getd (x : sx) : option get_out :=
   match x with
   | L [I 0%Z] => Some GRaise
   | L [I 1%Z] => Some (GData KMissing)
   | L [I 2%Z] => Some (GData KTypeError)
-  | L [I 3%Z; B s] => Some (GData (KVal (AStr s)))
+  | L [I 3%Z; s] => option_map (fun s => GData (KVal (AStr s))) (asStr s)
   | L [I 4%Z] => Some (GData (KVal AFalsy))
   | L [I 5%Z; l] => option_map (fun l => GData (KVal (ASeq l))) (asListOf dec_entry l)
   | L [I 6%Z] => Some (GData (KVal ANonIter))
@@ -149,15 +153,15 @@ Definition nz (z : Z) : bool := negb (z =? 0)%Z.
 
 Definition decode (x : sx) : option (case * obs) :=
   match x with
-  | L [I k; I r; ents; B cl; I key; I a; I nr; I tp; I lk; I fd; gd; I f; t4; t6; rf; L [I oc; I on]] =>
-      obind (dec_kind k) (fun k => obind (asListOf dec_entry ents) (fun ents =>
+  | L [I k; I r; ents; clx; I key; I a; I nr; I tp; I lk; I fd; gd; I f; t4; t6; rf; L [I oc; I on]] =>
+      obind (asStr clx) (fun cl => obind (dec_kind k) (fun k => obind (asListOf dec_entry ents) (fun ents =>
       obind (dec_act a) (fun a => obind (dec_find fd) (fun fd => obind (dec_getd gd) (fun gd =>
       obind (dec_fs f) (fun f => obind (asListOf dec_pent t4) (fun t4 => obind (asListOf dec_pent t6) (fun t6 =>
       obind (dec_ref rf) (fun rf =>
       Some ({| ckind := k; craise := nz r; centries := ents; cclient := cl; ckey := nz key; cact := a;
                cnores := if nz nr then NRContinue else NRNotFound; ctemplate := nz tp; clookup := nz lk;
                cfind := fd; cgetd := gd; cfs := f; p4tab := t4; p6tab := t6; cref := rf |},
-            {| ocode := Z.to_N oc; ocount := Z.to_N on |}))))))))))
+            {| ocode := Z.to_N oc; ocount := Z.to_N on |})))))))))))
   | _ => None
   end.
 
